@@ -366,9 +366,6 @@ def _run_history(sc, want_idempotence=True, faults=None, audits=True):
                     violations.append(viol('I-internal', 'internal error escaped: %s: %s [%s]' % (r[1], r[2], what), sig=r[1]))
                 # the premise "completes without error" is false: nothing more to audit
                 break
-            if not audits:
-                clock.advance(3_000_000_000)
-                continue
             after = in_use_manifests(w.root, top)
             # ---- C10: entry preservation
             bl = {}
@@ -448,6 +445,11 @@ def _run_history(sc, want_idempotence=True, faults=None, audits=True):
                         diff = sorted(set(b) ^ set(a2))
                         violations.append(viol('own.out-of-scope-entry', '%s (scope %r): %s entries outside the scope changed: %s' % (
                             what, scope, ln, diff[:3]), sig='out-of-scope'))
+            if not audits:
+                # (an update that completed although a fault was injected into it: ownership and entry preservation are
+                # still owed, the audit of the result is C03's and C06's business)
+                clock.advance(3_000_000_000)
+                continue
             # ---- C03: audit + fresh verification
             eh = effective_hashes(u)
             if u.get('last_mtime') is not None or u.get('incremental'):
